@@ -302,7 +302,7 @@ def minimise_fresh(pid: str, scn: Dict[str, Any], key: str, path: str, budget: i
 
 def replay_in_fresh_interpreter(pid: str, path: str) -> Dict[str, Any]:
     env = dict(os.environ)
-    env["PYTHONHASHSEED"] = "1"
+    env["PYTHONHASHSEED"] = os.environ.get("PYTHONHASHSEED", "0")     # same hash seed as the batch: exact replay
     env.pop("VERIF_REEXEC", None)
     p = subprocess.run([sys.executable, os.path.join(VERIF, "check"), pid, "--replay", path, "--json"],
                        capture_output=True, text=True, env=env, timeout=300)
